@@ -17,8 +17,7 @@ from ..strdom import Str, ext, SELF
 from .C01 import booking_units, unique_guard
 from .C11 import external_sector_guards
 
-TECHNIQUE = ('static analysis: effect extraction of the FX primitives and their callers; Laurent-polynomial normalisation of the '
-             'valued FX position with the cross-rate definition substituted; dominance of the external-sector guard')
+TECHNIQUE = ('static analysis: effect extraction of the FX primitives and their callers; Laurent-polynomial normalisation of the valued FX position with the cross-rate definition substituted; feasible-path search with ExternalSector bound to None for the external-sector guard')
 EXPLANATION = (
     'The two FX primitives and every unit that calls them are interpreted abstractly; the FX intermediary\'s entries are valued '
     'at the rate variables (NET_c * XR_c, numeraire at 1), the cross-rate definition emitted by GetCrossRate is substituted and '
